@@ -7,7 +7,8 @@ GROUPS_T = ["validators", "cond", "before", "on", "after"]
 
 
 def rand_def(rng, *, nstates=None, ntrans=None, provs=("sm",), dense=0.5, coro=0.0, styles=True,
-             guards=True, validators=True, finals=True, name="M", yields=0):
+             guards=True, validators=True, finals=True, name="M", yields=0, guard_p=0.5,
+             validator_p=0.15, events=None):
     n = nstates or rng.randint(2, 5)
     ids = [f"s{k}" for k in range(n)]
     nfinal = rng.randint(0, max(0, n - 2)) if finals else 0
@@ -15,7 +16,7 @@ def rand_def(rng, *, nstates=None, ntrans=None, provs=("sm",), dense=0.5, coro=0
     states = [{"id": s, "initial": s == ids[0], "final": s in final} for s in ids]
     nonfinal = [s for s in ids if s not in final]
     nev = rng.randint(1, 4)
-    evs = rng.sample(EVENTS, nev)
+    evs = rng.sample(events or EVENTS, min(nev, len(events or EVENTS)))
     trans = []
     # reachability backbone: every state k>0 gets an incoming edge from an earlier non-final state
     for k in range(1, n):
@@ -70,11 +71,11 @@ def rand_def(rng, *, nstates=None, ntrans=None, provs=("sm",), dense=0.5, coro=0
         cb["style"] = "convention"
 
     for j, t in enumerate(trans, start=1):
-        if guards and rng.random() < 0.5:
+        if guards and rng.random() < guard_p:
             for g in rng.sample(GNAMES, rng.randint(1, 2)):
                 add("T", "cond", tix=j, gname=g, expected=rng.random() < 0.6)
-        if validators and rng.random() < 0.15:
-            add("T", "validators", tix=j)
+        if validators and rng.random() < validator_p:
+            add("T", "validators", tix=j, gname=rng.choice(GNAMES + ["none"]))
         for g in ("before", "on", "after"):
             while rng.random() < dense * 0.5:
                 add("T", g, tix=j)
@@ -108,10 +109,11 @@ def rand_gv(rng):
 
 
 def rand_engine_scenario(rng, *, nsends=None, provs=None, rtc=None, allow=None, coro=0.0,
-                         nested=0.4, fail=0.3, driver="sync", yields=0, nstates=None, dense=0.5):
+                         nested=0.4, fail=0.3, driver="sync", yields=0, nstates=None, dense=0.5,
+                         unknown=("nope",), apis=None, **defkw):
     provs = provs if provs is not None else rng.choice(
         [["sm"], ["sm"], ["sm", "model"], ["sm", "model", "l1"], ["sm", "l1", "l2"]])
-    d = rand_def(rng, provs=tuple(provs), coro=coro, yields=yields, nstates=nstates, dense=dense)
+    d = rand_def(rng, provs=tuple(provs), coro=coro, yields=yields, nstates=nstates, dense=dense, **defkw)
     has_coro = any(cb["coro"] for cb in d["cbs"])
     opt = {"rtc": (rng.random() < 0.7) if rtc is None else rtc,
            "allow": (rng.random() < 0.3) if allow is None else allow,
@@ -130,12 +132,16 @@ def rand_engine_scenario(rng, *, nsends=None, provs=None, rtc=None, allow=None, 
     n = nsends or rng.randint(1, 8)
     steps = [{"op": "new", "i": 1, "cls": 1, "opt": opt, "stored": "", "provs": provs,
               "gv": rand_gv(rng)}]
-    apis = ["send", "send", "event", "events_item", "allowed_item", "bound"]
+    apis = apis or ["send", "send", "event", "events_item", "allowed_item", "bound"]
+    unk = list(unknown)
+    if unknown and len(unknown) > 1:
+        unk += [rng.choice(evs)[:-1] or "q", rng.choice(evs) + "x", rng.choice(evs) + "_"]
+        unk = [u for u in unk if u not in evs]
     for _ in range(n):
-        ev = rng.choice(evs + evs + ["nope"])
+        ev = rng.choice(evs + evs + unk)
         api = rng.choice(apis)
-        if ev == "nope":
-            api = rng.choice(["send", "send", "events_item", "allowed_item"])
+        if ev not in evs:
+            api = "send"
         steps.append({"op": "call", "i": 1, "api": api, "ev": ev, "gv": rand_gv(rng)})
     fail_at = []
     if rng.random() < fail:
@@ -145,3 +151,36 @@ def rand_engine_scenario(rng, *, nsends=None, provs=None, rtc=None, allow=None, 
                 cb["yields"] = 0
     return {"classes": [d], "steps": steps, "script": script, "failAt": fail_at, "budget": budget,
             "ni": 3, "driver": driver}
+
+
+# ------------------------------------------------------------------------------------------
+# Small-scope families for the exhaustive models (mc/)
+# ------------------------------------------------------------------------------------------
+def all_gvs(names):
+    out = []
+    for mask in range(1 << len(names)):
+        gv = {n: bool(mask >> k & 1) for k, n in enumerate(names)}
+        gv["none"] = True
+        out.append(gv)
+    return out
+
+
+def family_member(rng, *, nstates=3, dense=0.35, guards=True, validators=True, nested=True,
+                  provs=("sm",), coro=0.0, max_cbs=6, opts=None, stored=("",), ntrans=None):
+    import harness
+    while True:
+        d = rand_def(rng, nstates=rng.randint(2, nstates), ntrans=ntrans if ntrans is not None else rng.randint(0, 3),
+                     provs=provs, dense=dense, coro=coro, guards=guards, validators=validators)
+        for cb in d["cbs"]:
+            if cb["gname"] not in ("none", "g1", "g2"):
+                cb["gname"] = rng.choice(["g1", "g2"])
+        if len(d["cbs"]) <= max_cbs:
+            break
+    harness.normalize_def(d)
+    evs = d["evlist"] + ["nope"]
+    has_coro = any(cb["coro"] for cb in d["cbs"])
+    if opts is None:
+        opts = [{"rtc": r, "allow": a, "start": "", "budget": 2 if nested else 0}
+                for r in ([True] if has_coro else [True, False]) for a in (False, True)]
+    return {"classes": [d], "opts": opts, "gvs": all_gvs(["g1", "g2"]), "evs": evs,
+            "nsends": d["evlist"][:2] if nested else [], "stored": list(stored), "provs": list(provs)}
